@@ -7,7 +7,9 @@
    under PYTHONHASHSEED=0 (fields z..), projections of the process-wide caches, the container the
    model was handed over in (c), the options that write additional files (opts), every file the step
    wrote (art: [name, digest] pairs) and digests of the caller's object before and after the call
-   (inb, ina; ino = the bytes the caller put there at the start of the history).
+   (inb, ina; ino = the bytes the caller put there at the start of the history), the interpreter's recursion limit after
+   the call (rla; 0 = not observed), a digest of the other interpreter-wide settings before / after the call (envb, enva)
+   and the settings the compilation of this model needs (needs).
 
    Property clauses (reported in viol, one run lists all of them):
      HistoryIndependent    the step succeeded => same output/summary digests and the same set of
@@ -26,9 +28,11 @@ Trace == ndJsonDeserialize(IOEnv.TRACE_FILE)
 
 VARIABLES l, viol, drift, st, hist, res
 H == INSTANCE History WITH Letters <- {}, VK <- <<>>, WK <- <<>>, Acc <- <<>>, Opt <- <<>>, Mdl <- <<>>,
-                           InPlace <- <<>>, MaxLen <- 4, Policy <- PolicyC, SeedsRng <- TRUE, ReaderCopies <- TRUE
+                           InPlace <- <<>>, Needs <- <<>>, Establishes <- [x \in {"main", "convert", "convert_bytes"} |-> {"rec"}],
+                           MaxLen <- 4, Policy <- PolicyC, SeedsRng <- TRUE, ReaderCopies <- TRUE
 
 ToSet(q) == {q[j] : j \in 1..Len(q)}
+RaisedLimit == 2000      \* a recursion limit of at least this much counts as "raised" (the interpreter starts with 1000)
 Ev == Trace[l]
 
 Obs(e) == [ok |-> e.ok, exc |-> e.exc, dig |-> e.dig, csv |-> e.csv, art |-> ToSet(e.art)]
@@ -52,7 +56,7 @@ Failures(e) ==
 Before(e) == H!Pre(IF e.i = 1 THEN H!Boot ELSE st, e.e)
 Seeded(e) == e.rnga # e.rngb
 ParOf(e) == [vk |-> ToSet(e.vk), wk |-> ToSet(e.wk), acc |-> e.acc, opts |-> ToSet(e.opts), mdl |-> e.mdl, c |-> e.c,
-             inplace |-> WroteInput(e)]
+             inplace |-> WroteInput(e), e |-> e.e, needs |-> ToSet(e.needs)]
 After(e) == H!Post(Before(e), e.i, e.e, e.mo, ParOf(e), ~e.ok, Seeded(e), WroteInput(e))
 
 Drift(e) ==
@@ -71,6 +75,8 @@ Drift(e) ==
   \cup (IF e.ok /\ e.iok /\ Seeded(e) /\ e.rnga # e.irnga THEN {"rng"} ELSE {})
   \cup (IF (H!Kept(e.c) /\ e.inb # e.ino) # H!Expo(S, ParOf(e)).buf THEN {"cbuf.read"} ELSE {})
   \cup (IF WroteInput(e) # H!Wrote(ParOf(e), "ok") THEN {"cbuf.written"} ELSE {})
+  \cup (IF e.rla > 0 /\ (e.rla >= RaisedLimit) # ("rec" \in P.env) THEN {"env.limit"} ELSE {})
+  \cup (IF e.enva # e.envb THEN {"env.other"} ELSE {})
   \cup (IF H!ObservedKind(Obs(e), IsoOf(e)) \notin H!AllowedKinds(S, ParOf(e)) THEN {"outcome"} ELSE {})
 
 Init == l = 1 /\ viol = {} /\ drift = {} /\ st = H!Boot /\ hist = <<>> /\ res = <<>>
